@@ -508,6 +508,29 @@ fn main() {
                     fail(format!("ratio {}: {:?}, expected {:?}", d / 10.0, r, w));
                 }
             }
+            // repeated vertices (zero-length segments) at either end and in the middle
+            let rep: LineString<f64> = vec![(2.0, 3.0), (2.0, 3.0), (12.0, 3.0), (12.0, 3.0), (12.0, 8.0), (12.0, 8.0)].into();
+            let at2 = |d: f64| -> (f64, f64) {
+                let d = d.clamp(0.0, 15.0);
+                if d <= 10.0 {
+                    (2.0 + d, 3.0)
+                } else {
+                    (12.0, 3.0 + d - 10.0)
+                }
+            };
+            for d in [-4.0, 0.0, 4.0, 10.0, 12.5, 15.0, 20.0] {
+                let w = at2(d);
+                let close = |p: Option<Point<f64>>| matches!(p, Some(p) if (p.x() - w.0).abs() < 1e-9 && (p.y() - w.1).abs() < 1e-9);
+                let got = [
+                    Euclidean.point_at_distance_from_start(&rep, d),
+                    Euclidean.point_at_distance_from_end(&rep, 15.0 - d),
+                    Euclidean.point_at_ratio_from_start(&rep, d / 15.0),
+                    Euclidean.point_at_ratio_from_end(&rep, 1.0 - d / 15.0),
+                ];
+                if !got.iter().all(|g| close(*g)) {
+                    fail(format!("repeated vertices, distance {d}: {:?}, expected {:?}", got, w));
+                }
+            }
             let e: LineString<f64> = LineString::new(vec![]);
             if Euclidean.point_at_distance_from_start(&e, 1.0).is_some() {
                 fail("empty line string must give None".to_string());
@@ -529,6 +552,78 @@ fn main() {
                 fail("Line::closest_point differs from the clamped projection on a concrete instance".to_string());
             }
             println!("ok line closest point");
+        }
+        "densify_structure" => {
+            use geo::Densify;
+            use geo::Euclidean;
+            use geo_types::LineString;
+            let cases: Vec<Vec<(f64, f64)>> = vec![
+                vec![],
+                vec![(1.0, 1.0)],
+                vec![(0.0, 0.0), (1.0, 0.0), (1.0, 0.0), (3.0, 0.0)],
+                vec![(0.0, 0.0), (0.0, 0.0)],
+                vec![(0.0, 0.0), (2.0, 0.0), (0.0, 0.0), (0.0, 0.0)],
+            ];
+            for pts in cases {
+                let ls: LineString<f64> = pts.clone().into();
+                // no segment is longer than 100: nothing is inserted, so the output is the input
+                let d = Euclidean.densify(&ls, 100.0);
+                if d != ls {
+                    fail(format!("densify({:?}, 100) = {:?}: original vertices changed", pts, d.0));
+                }
+                // max length 0.5: the original vertices remain, in order, as a subsequence
+                let d = Euclidean.densify(&ls, 0.5);
+                let mut k = 0;
+                for c in &d.0 {
+                    if k < ls.0.len() && *c == ls.0[k] {
+                        k += 1;
+                    }
+                }
+                if k != ls.0.len() || (d.0.len() < ls.0.len()) {
+                    fail(format!("densify({:?}, 0.5) = {:?}: an original vertex is missing", pts, d.0));
+                }
+            }
+            println!("ok densify structure");
+        }
+        "centroid_contributions" => {
+            use geo::Centroid;
+            use geo_types::{Geometry, GeometryCollection, Point, Rect, Triangle};
+            let near = |p: Option<Point<f64>>, x: f64, y: f64| matches!(p, Some(p) if (p.x() - x).abs() < 1e-9 && (p.y() - y).abs() < 1e-9);
+            // a clockwise and a counter-clockwise triangle of the same area: centroid is the midpoint of theirs
+            let cw = Triangle(coord! {x: 0.0, y: 0.0}, coord! {x: 0.0, y: 3.0}, coord! {x: 3.0, y: 0.0});
+            let ccw = Triangle(coord! {x: 10.0, y: 0.0}, coord! {x: 13.0, y: 0.0}, coord! {x: 10.0, y: 3.0});
+            let gc = GeometryCollection(vec![Geometry::Triangle(cw), Geometry::Triangle(ccw)]);
+            if !near(gc.centroid(), 6.0, 1.0) {
+                fail(format!("two triangles of equal area, opposite winding: centroid {:?}, expected (6, 1)", gc.centroid()));
+            }
+            if !near(Some(cw.centroid()), 1.0, 1.0) {
+                fail(format!("clockwise triangle centroid {:?}", cw.centroid()));
+            }
+            let r = Rect::new(coord! {x: 20.0, y: 0.0}, coord! {x: 22.0, y: 2.0});
+            let gc = GeometryCollection(vec![Geometry::Triangle(cw), Geometry::Rect(r)]);
+            // weights 4.5 and 4, centroids (1,1) and (21,1)
+            if !near(gc.centroid(), (4.5 + 84.0) / 8.5, 1.0) {
+                fail(format!("triangle + rect: centroid {:?}", gc.centroid()));
+            }
+            let gc = GeometryCollection(vec![
+                Geometry::Line(Line::new(coord! {x: 0.0, y: 0.0}, coord! {x: 2.0, y: 0.0})),
+                Geometry::Line(Line::new(coord! {x: 10.0, y: 0.0}, coord! {x: 10.0, y: 6.0})),
+            ]);
+            if !near(gc.centroid(), 62.0 / 8.0, 18.0 / 8.0) {
+                fail(format!("two lines: centroid {:?}", gc.centroid()));
+            }
+            // a polygon whose hole covers its exterior exactly degenerates to the exterior line string:
+            // length-weighted centroid (1.5, 1), not the area-weighted (4/3, 1)
+            let ring: geo_types::LineString<f64> = vec![(0.0, 0.0), (4.0, 0.0), (0.0, 3.0), (0.0, 0.0)].into();
+            let hollow = geo_types::Polygon::new(ring.clone(), vec![ring.clone()]);
+            if !near(hollow.centroid(), 1.5, 1.0) {
+                fail(format!("polygon fully covered by its hole: centroid {:?}, expected (1.5, 1)", hollow.centroid()));
+            }
+            let solid = geo_types::Polygon::new(ring, vec![]);
+            if !near(solid.centroid(), 4.0 / 3.0, 1.0) {
+                fail(format!("triangle polygon: centroid {:?}, expected (4/3, 1)", solid.centroid()));
+            }
+            println!("ok centroid contributions");
         }
         _ => {
             eprintln!("unknown op {op}");
